@@ -39,6 +39,49 @@ def _functions(src):
     return out
 
 
+def _arg_types(src):
+    """{function name: [annotation source of each parameter]}"""
+    out = {}
+    for node in ast.parse(src).body:
+        if isinstance(node, ast.FunctionDef):
+            out[node.name] = [ast.unparse(a.annotation) if a.annotation is not None else "object" for a in node.args.args]
+    return out
+
+
+GRID = {"int": [-3, -1, 0, 1, 2, 3, 4, 5, 6, 7, 11, 12], "bool": [False, True], "str": ["", "a", "b", "ab", "az", "xy", "{"]}
+
+
+def native_grid(path, fname, arg_types, limit=600):
+    """fallback for a condition CrossHair could not decide: evaluate it natively on a small grid of concrete arguments
+    (honouring its `pre:` lines).  Returns (violating call text or None, number of points evaluated)."""
+    import itertools
+
+    doms = [GRID.get(t) for t in arg_types]
+    if any(d is None for d in doms):
+        return None, 0
+    pts = list(itertools.islice(itertools.product(*doms), limit))
+    code = ("import runpy, re, inspect\n"
+            f"ns = runpy.run_path({path!r})\n"
+            f"fn = ns[{fname!r}]\n"
+            "pres = [l.split('pre:', 1)[1].strip() for l in (fn.__doc__ or '').splitlines() if l.strip().startswith('pre:')]\n"
+            "names = list(inspect.signature(fn).parameters)\n"
+            f"n = 0\nfor pt in {pts!r}:\n"
+            "    env = dict(ns); env.update(zip(names, pt))\n"
+            "    if not all(eval(p, env) for p in pres):\n        continue\n"
+            "    n += 1\n"
+            "    if fn(*pt) is not True:\n"
+            "        print('GRID-VIOLATION', fn.__name__ + repr(tuple(pt)) if len(pt) != 1 else fn.__name__ + '(' + repr(pt[0]) + ')')\n        break\n"
+            "print('GRID-POINTS', n)\n")
+    env = dict(os.environ, PYTHONPATH=OVLD_SRC, PYTHONHASHSEED="0", PYTHONDONTWRITEBYTECODE="1")
+    try:
+        r = subprocess.run([PY, "-c", code], capture_output=True, text=True, timeout=300, env=env)
+    except subprocess.TimeoutExpired:
+        return None, 0
+    m = re.search(r"GRID-VIOLATION (.*)", r.stdout)
+    n = re.search(r"GRID-POINTS (\d+)", r.stdout)
+    return (m.group(1).strip() if m else None), (int(n.group(1)) if n else 0)
+
+
 def run_module(src, name, workdir, per_condition_timeout=20, hard_timeout=None):
     src = HEADER.format(src=OVLD_SRC) + src
     path = os.path.join(workdir, name + ".py")
@@ -58,7 +101,8 @@ def run_module(src, name, workdir, per_condition_timeout=20, hard_timeout=None):
         out = (e.stdout or b"").decode() if isinstance(e.stdout, bytes) else (e.stdout or "")
         timed_out = True
     wall = time.time() - t0
-    res = {c[0]: dict(kind=c[0].split("_")[0], verdict="no-verdict", message=None) for c in conds}
+    atypes = _arg_types(src)
+    res = {c[0]: dict(kind=c[0].split("_")[0], verdict="no-verdict", message=None, arg_types=atypes.get(c[0], [])) for c in conds}
 
     def owner(line):
         for nm, a, b in funcs:
